@@ -77,8 +77,10 @@ Print Assumptions C05_refcounter_kernel_matches_source.
    statement by statement, in the world-level monad of Base/MiniPyW.v (an exception raised by `downstream.update` unwinds
    the loop; the returned list of awaitables is represented by the status only).  Base/BridgeEmit.v proves that they are
    the model's retain / release / push: `downstream.update` is the parameter call_update (log the call, evaluate the node's
-   update, run its action list with the recursive push), `self.downstreams` is read through the model's downs, and the
-   model's deliver is that call followed by the release - unless the call unwinds. *)
+   update, run its action list with the recursive push), `self.downstreams` is read through the model's downs, one turn
+   of the loop is the model's hand (the test `downstream not in self.downstreams` is attached: membership in downs of the
+   world at the time of the test; a child that left since the snapshot is not called and the reference retained for it is
+   released), and the model's deliver is the call followed by the release - unless the call unwinds. *)
 From SZ Require Import Base.MiniPyW Base.BridgeEmit.
 Theorem C05_run_retain_refs_matches_source :
   forall m n w, Gen.KN__refs.gen_body__retain_refs m n w = WRet tt (retain w m n).
@@ -105,7 +107,7 @@ Print Assumptions C05_emit_matches_source.
 Theorem C05_emit_matches_source_any_callee :
   forall emitfrom g depth n w x m,
   (let ds := downs g w n in
-   fold_left (deliver emitfrom g depth n x m) ds (retain w m (Z.of_nat (length ds)), SOk)) =
+   fold_left (hand emitfrom g depth n x m) ds (retain w m (Z.of_nat (length ds)), SOk)) =
   Gen.KN__emit.gen_emit (fun w => downs g w n) (call_update emitfrom g depth n) w x m.
 Proof. exact bridge_emit_gen. Qed.
 Print Assumptions C05_emit_matches_source_any_callee.
@@ -116,6 +118,20 @@ Theorem C05_deliver_is_call_then_release :
   if status_go s' then (release w' m 1, status_join s s') else (w', s').
 Proof. exact deliver_call_release. Qed.
 Print Assumptions C05_deliver_is_call_then_release.
+Theorem C05_deliver_skipped_after_unwinding :
+  forall emitfrom g depth n x m w s d, status_go s = false -> deliver emitfrom g depth n x m (w, s) d = (w, s).
+Proof. exact deliver_stop. Qed.
+Print Assumptions C05_deliver_skipped_after_unwinding.
+Theorem C05_turn_is_hand_over_when_still_attached :
+  forall emitfrom g depth n x m w s d, attached g w n d = true ->
+  hand emitfrom g depth n x m (w, s) d = deliver emitfrom g depth n x m (w, s) d.
+Proof. exact hand_attached. Qed.
+Print Assumptions C05_turn_is_hand_over_when_still_attached.
+Theorem C05_turn_only_releases_when_detached :
+  forall emitfrom g depth n x m w s d, status_go s = true -> attached g w n d = false ->
+  hand emitfrom g depth n x m (w, s) d = (release w m 1, s).
+Proof. exact hand_gone. Qed.
+Print Assumptions C05_turn_only_releases_when_detached.
 (* ---- _emit bridges (harness/mkprops_emit.py): end ---- *)
 
 (* ---- node bridges (harness/mkprops_nodes.py): begin ---- *)
